@@ -1,8 +1,10 @@
 // ---- model fragment: SDK odds and ends used only by the expanded example contracts (TRUSTED) ----
+/// the bytes of a Rust string slice (UTF-8 encoding, uninterpreted)
+pub uninterp spec fn str_bytes(s: Seq<char>) -> Seq<u8>;
 impl String {
-    /// `String::from_str(e, "..")`: some host string; its content is not modelled (weakest contract)
+    /// `String::from_str(e, "..")`: the host string holding the bytes of the slice
     #[verifier::external_body]
-    pub fn from_str(e: &Env, s: &str) -> (r: Self) { unimplemented!() }
+    pub fn from_str(e: &Env, s: &str) -> (r: Self) ensures r.s@ == str_bytes(s@) { unimplemented!() }
 }
 
 pub open spec fn fn_update_wasm() -> int { str_code("update_current_contract_wasm"@) }
@@ -18,4 +20,9 @@ impl Env {
     pub fn deployer_update_current_contract_wasm(&mut self, hash: BytesN<32>)
         ensures final(self)@ == (World { calls: old(self)@.calls.push(wasm_update_call(old(self)@, hash@)), ..old(self)@ }),
     { unimplemented!() }
+}
+impl String {
+    /// `String::len()`: number of bytes of the host string (a host object is shorter than 2^32 bytes)
+    #[verifier::external_body]
+    pub fn len(&self) -> (r: u32) ensures r as int == self.s@.len() { unimplemented!() }
 }
